@@ -188,24 +188,60 @@ def run(check):
     if t[0] == 'meth' and t[1] == 'join' and len(t) == 4 and t[3][0] == 'meth' and t[3][1] == 'split' and len(t[3]) == 4 and \
        t[3][3] == ('const', '.'):
       return ('meth', 'replace', t[3][2], ('const', '.'), t[2])
+    # NAME.join(...) / Class.NAME.join(...) on a global: evaluated as a dotted call
+    if t[0] == 'call' and isinstance(t[1], str) and t[1].endswith('.join') and len(t) == 3 and t[2][0] == 'meth' and t[2][1] == 'split' and \
+       len(t[2]) == 4 and t[2][3] == ('const', '.'):
+      parts = t[1].split('.')[:-1]
+      recv = ('param', parts[0])
+      for p_ in parts[1:]:
+        recv = ('attr', recv, p_)
+      return ('meth', 'replace', t[2][2], ('const', '.'), recv)
     return t
 
   def dots_replaced(t):
     """t is <whole metric>.replace('.', C) with no '.' (and no '..') in C"""
     t = canon_replace(t)
-    return t[0] == 'meth' and t[1] == 'replace' and t[2] == ('param', pname) and len(t) >= 5 and t[3] == ('const', '.') and \
-      ((t[4][0] == 'const' and isinstance(t[4][1], str) and '.' not in t[4][1]) or t[4] == ('param', 'sep'))
+    if not (t[0] == 'meth' and t[1] == 'replace' and t[2] == ('param', pname) and len(t) >= 5 and t[3] == ('const', '.')):
+      return False
+    c4 = as_const(t[4])
+    return (c4[0] == 'const' and isinstance(c4[1], str) and '.' not in c4[1]) or t[4] == ('param', 'sep')
+  def as_const(t):
+    """a module-level / class-level string constant read by name"""
+    if isinstance(t, tuple) and t[0] == 'param' and isinstance(t[1], str) and t[1] not in enc.params:
+      vals = enc.module.globals.get(t[1], [])
+      if len(vals) == 1 and isinstance(vals[0], ast.Constant) and _is_module_constant(enc.module, t[1]):
+        return ('const', vals[0].value)
+    if isinstance(t, tuple) and t[0] == 'attr' and len(t) == 3 and t[1] in (('param', 'self'), ('param', 'cls'), ('param', enc.cls.name if enc.cls else '')):
+      v = enc.cls.attrs.get(t[2]) if enc.cls is not None else None
+      assigned = any(isinstance(x, ast.Attribute) and x.attr == t[2] and isinstance(x.ctx, (ast.Store, ast.Del)) for x in ast.walk(enc.module.tree))
+      if isinstance(v, ast.Constant) and not assigned:
+        return ('const', v.value)
+    return t
+
+  def spread(t):
+    """sep.join(<either(list A, list B)>)  ->  sep.join(A) | sep.join(B)"""
+    outs = []
+    for alt in alternatives(t):
+      if alt[0] == 'meth' and alt[1] == 'join' and len(alt) == 4:
+        for l_ in alternatives(alt[3]):
+          outs.append(('meth', 'join', alt[2], ('list',) + tuple(l_[1:]) if l_[0] in ('list', 'tuple') else l_))
+      else:
+        outs.append(alt)
+    return outs
   for name, node, args, kws, loops, f in rets:
-    for alt in alternatives(args[0]):
+    for alt in spread(args[0]):
       if not _mentions_metric(alt, pname):
         r_e.ok('return without metric-derived part', enc.loc(node))
         continue
       if alt[0] == 'meth' and alt[1] == 'join' and alt[2] == ('param', 'sep') and len(alt) == 4 and alt[3][0] == 'list':
-        comps = alt[3][1:]
+        comps = [as_const(c) for c in alt[3][1:]]
         first = comps[0] if comps else None
         bad = []
         for c in comps:
+          if c[0] == 'rest':
+            c = c[1]            # elements appended in a loop: each one of these
           for ca in alternatives(c):
+            ca = as_const(ca)
             if ca[0] == 'const' and isinstance(ca[1], str) and '.' not in ca[1] and '/' not in ca[1]:
               continue
             if hexonly(ca):
